@@ -46,6 +46,7 @@ class HarnessBug(HarnessSignal):
 
 CASE_PRELUDE = None     # see run_scenario
 CASE_COMPANION = None   # see Companion
+CASE_COPTS = None       # connect() options of the case being run that its scenarios do not set themselves
 ACTIVE_COMPANION = None  # the interleaved companion of the execution in progress
 ON_BLOCKED = None        # set by the runner: shortens the real-time watchdog for one execution
 BUG_LOG = []       # every HarnessBug raised in this process (checked by the runner after each case)
@@ -1012,6 +1013,9 @@ class Trace(object):
         self.post_stop = None   # True if a further next() raised StopIteration
         self.sim = None
         self.ws = None
+        self.held = None        # generator of an abandoned run that is kept alive ("hold")
+        self.companion = None
+        self.abandon_error = None
 
     def names(self):
         return [e["name"] for e in self.events]
@@ -1073,7 +1077,7 @@ def do_action(ws, action, sim):
         raise HarnessHang("unknown action %r" % (action,))
 
 
-TERMINAL_ACTIONS = ("break", "raise", "gen_close", "with_exit", "hold")
+TERMINAL_ACTIONS = ("break", "raise", "gen_close", "with_exit", "hold", "gen_close_other_thread", "drop_in_other_thread")
 
 
 def make_ws(scenario):
@@ -1121,7 +1125,7 @@ class Companion(object):
             for i in range(nframes):
                 n = self.SIZES[i % len(self.SIZES)]
                 body = (b"companion-%04d " % i) * (n // 15 + 1)
-                script.append(["stream", [["bytes", wire.build_frame(wire.BINARY if i % 3 else wire.TEXT, body[:n])]],
+                script.append(["stream", [["bytes", wire.build_frame(wire.TEXT if (i % 3 == 0 and n <= 200) else wire.BINARY, body[:n])]],
                                "whole", 0.0])
             script.append(["eof", 0.0])
             self._SCRIPTS[nframes] = script
@@ -1150,9 +1154,13 @@ class Companion(object):
                 ev = next(self.gen)
                 if getattr(ev, "name", "") == "ready":
                     return
-            raise HarnessBug("companion connection did not get Ready")
+            self.done = True       # the client under test cannot even bring this connection up: go on without it
         except StopIteration:
-            raise HarnessBug("companion connection ended before Ready")
+            self.done = True
+        except HarnessSignal:
+            raise
+        except Exception:
+            self.done = True
         finally:
             self._leave()
 
@@ -1191,6 +1199,8 @@ class Companion(object):
                     self._enter()
             sim.log_op("send", st, data)
             st.note_write(data)
+        if self.done or self.ws is None:
+            return body()
         self.sim.scn["_send_hook"] = hook
         self._enter()
         try:
@@ -1364,7 +1374,8 @@ def _drive(ws, scenario, sim, tr, on_event, release=None, companion=None):
 
 
 def _drive_inner(ws, scenario, sim, tr, on_event, release=None, companion=None):
-    copts = dict(scenario.get("connect_opts", {}))
+    copts = dict(CASE_COPTS or {})
+    copts.update(scenario.get("connect_opts", {}))
     rules = scenario.get("reactions", [])
     fired = [False] * len(rules)
     counts = {}
@@ -1458,6 +1469,30 @@ def _drive_inner(ws, scenario, sim, tr, on_event, release=None, companion=None):
                 tr.held = gen
             elif abandon == "gen_close":
                 gen.close()
+            elif abandon in ("gen_close_other_thread", "drop_in_other_thread"):
+                # the consumer iterated on this thread; ANOTHER thread finalises the generator (a supervisor
+                # closing it, or the last reference dying there)
+                import threading
+                box = {"gen": gen}
+                del gen
+                errs = []
+
+                def finalise():
+                    try:
+                        g = box.pop("gen")
+                        if abandon == "gen_close_other_thread":
+                            g.close()
+                        del g
+                    except BaseException as error:     # noqa - re-raised on the main thread
+                        errs.append(error)
+                t = threading.Thread(target=finalise, name="verif-finaliser")
+                t.start()
+                t.join(60)
+                gen = None
+                if t.is_alive():
+                    raise HarnessHang("finalising the generator on another thread did not return")
+                if errs:
+                    raise errs[0]
             elif abandon == "raise":
                 # what a for-loop does when its body raises: the generator is
                 # simply dropped
